@@ -202,6 +202,13 @@ def judgeParse (T : Ty) (txt : List Nat) (a : PAns) : Complaints :=
      | none, .err _ => [("C09", "BigBitstring rejected a NaN")]
      | _, _ => [])
 
+/-- the longest spelling without redundant characters of a numeral that fits the type's largest width:
+    sign, `p` digits, point, `e`, sign, the digits of the largest exponent magnitude (`bias + p`) -/
+def reqTextCap (T : Ty) : Nat :=
+  match T.capN with
+  | some n => 1 + (Fmt.mk n).p + 1 + 2 + digits10 ((Fmt.mk n).bias + (Fmt.mk n).p)
+  | none => 0
+
 /-- text capacity: the streaming entry point may additionally fail with "buffer too small"
     only when the text is longer than `cap` (`none` = unbounded). -/
 def judgeParseFmt (T : Ty) (cap : Option Nat) (frags : List (List Nat)) (fault : String) (a : PAns) : Complaints :=
@@ -216,7 +223,10 @@ def judgeParseFmt (T : Ty) (cap : Option Nat) (frags : List (List Nat)) (fault :
   else
     match a, cap with
     | .err ⟨"buffer", _, _, _⟩, some c =>
-        chk (txt.length > c) "C14" s!"buffer-too-small for a text of {txt.length} ≤ {c} bytes"
+        chk (txt.length > c) "C14" s!"buffer-too-small for a text of {txt.length} ≤ {c} bytes" ++
+        -- C04 is observed at try_parse too: a numeral that fits the type, written without redundant characters
+        -- (sign, p digits, point, e, sign, exponent digits), must not be refused for lack of buffer space
+        chk (txt.length > reqTextCap T) "C04" s!"the text buffer ({c} bytes) is too small for a numeral of canonical length {txt.length}"
     | .err ⟨"buffer", _, _, _⟩, none => [("C14", "buffer-too-small from an unbounded buffer")]
     | _, _ =>
       (judgeParse T txt a).map fun (p, w) =>
@@ -248,7 +258,7 @@ def judgeFormat (bytes : List Nat) (txt : Option (List Nat)) : Complaints :=
       chk (layoutOk num) "C02" "scientific notation with several digits but no decimal point"
 
 /-- `bytes --format--> txt --parse(T)--> back`; `stable` = a second round trip changed nothing -/
-def judgeRoundtrip (T : Ty) (bytes : List Nat) (txt : Option (List Nat)) (back : PAns) (stable : Bool) : Complaints :=
+def judgeRoundtripCore (T : Ty) (bytes : List Nat) (txt : Option (List Nat)) (back : PAns) (stable : Bool) : Complaints :=
   judgeFormat bytes txt ++
   (match txt, back with
    | none, _ => []
@@ -263,6 +273,14 @@ def judgeRoundtrip (T : Ty) (bytes : List Nat) (txt : Option (List Nat)) (back :
       chk stable "C03" "a second round trip changed the value"
    | some _, .panic => [("C05", "panic")]
    | some _, _ => [("C03", "the type rejected its own formatted text")])
+
+/-- C02 + C03 on a bit pattern; for an infinity or NaN pattern the same complaints are also complaints about C09
+    ("sign, quiet/signaling kind and payload are reproduced by formatting and reparsing") -/
+def judgeRoundtrip (T : Ty) (bytes : List Nat) (txt : Option (List Nat)) (back : PAns) (stable : Bool) : Complaints :=
+  let cs := judgeRoundtripCore T bytes txt back stable
+  match decode ⟨bytes.length / 4⟩ (ofLeBytes bytes) with
+  | .fin _ _ _ => cs
+  | _ => cs ++ cs.map fun (p, w) => (if p == "C05" then p else "C09", w)
 
 /-- text → bits → text: the text printed for a parsed numeral denotes the same datum -/
 def judgeReprint (txt : List Nat) (printed : List Nat) : Complaints :=
@@ -410,6 +428,11 @@ def judgeToFloat (T : Ty) (bytes : List Nat) (B : BinFmt) (a : OAns) : Complaint
      | .some v => chk (v ≥ 0 && B.isNan v.toNat && (v.toNat ≥ B.signMask) == s) "C13" "NaN not mapped to a NaN of the same sign"
      | _ => [("C13", "NaN not mapped to a NaN")])
 
+/-- the text begins `D…` or `-D…` -/
+def startsDigitOrMinusDigit : List Nat → Bool
+  | c :: rest => isDigit c || (c == 45 && (match rest with | d :: _ => isDigit d | [] => false))
+  | [] => false
+
 /-- `from_f32/from_f64`. `ryu` is the text the float formatter produced for the same float (the assumed
     contract of the external crate); `printed` the Display text of the result; `back` the result converted back. -/
 def judgeFromFloat (T : Ty) (B : BinFmt) (bits : Nat) (ryu : List Nat) (a : PAns) (printed : List Nat) (back : OAns) : Complaints :=
@@ -439,9 +462,7 @@ def judgeFromFloat (T : Ty) (B : BinFmt) (bits : Nat) (ryu : List Nat) (a : PAns
       chk (s' == s && rneDecSafe B c q == some (bits % B.signMask)) "RYU" "float formatter contract: text does not round to the float" ++
       -- the rest of the contract the C12 theorems assume (`Props.C12.RyuContractWide`), monitored on every request
       chk (d ≤ 34 && c < 10 ^ 17 && -400 ≤ expValue ex && expValue ex ≤ 400) "RYU" "float formatter contract: more than 17 significant / 34 written digits or a huge exponent" ++
-      chk (match ryu with
-           | c0 :: rest => isDigit c0 || (c0 == 45 && (match rest with | d0 :: _ => isDigit d0 | [] => false))
-           | [] => false) "RYU" "float formatter contract: text does not start with a digit or a minus sign and a digit" ++
+      chk (startsDigitOrMinusDigit ryu) "RYU" "float formatter contract: text does not start with a digit or a minus sign and a digit" ++
       (match a with
        | .none =>
          (match T.capN with
